@@ -130,6 +130,11 @@ var checks = map[string]checkCfg{
 		Assumptions: baseAssumptions,
 		Phases: []phase{rp("rapid", "^TestC20$", 6, 60, 16, 600),
 			{Name: "race", Variant: "race", Tests: "^TestC20$", QuickShards: 2, QuickChecks: 40, ThoroughShards: 8, ThoroughChecks: 300}}},
+	"C21": {Level: "exploration", Technique: "rapid operation/clock histories vs exact reference LRU (no expiry) and validity predicates (expiry); concurrent variant under the race detector",
+		Rule:        "each case picks AttrCache or DirCache, capacity 1-5, a TTL, the regime (exact LRU without clock advance, or expiry with advances below/at/above the TTL) and 3-40 operations over Put/PutNegative/Get/Invalidate/InvalidateNegativeInDir/InvalidateSubtree/Resize/UpdateTTL/ConfigureNegativeCaching/Clear/advance on 8 paths chosen to stress the direct-child test, with copy-isolation mutations after Put and Get; every case ends with a sweep over all keys; non-trivial = an eviction or expiry happened and the affected key was looked up afterwards; the concurrent phase runs 4 goroutines over shared caches under -race; distinct = FNV-64 of the case JSON",
+		Assumptions: append([]string{"cache.go is compiled with time.Now/time.Since mechanically redirected to the harness clock", "at the exact expiry instant hit and miss are both accepted", "a DirCache Put larger than maxDirSize is treated as not stored"}, baseAssumptions...),
+		Phases: []phase{{Name: "seq", Variant: "clock", Tests: "^TestC21$", QuickShards: 4, QuickChecks: 3000, ThoroughShards: 16, ThoroughChecks: 50000, ReplayVariant: true},
+			{Name: "race", Variant: "race", Tests: "^TestC21Concurrent$", QuickShards: 2, QuickChecks: 150, ThoroughShards: 8, ThoroughChecks: 1500}}},
 	"C02": {Level: "exploration", Technique: "rapid histories vs POSIX tree model + cached-vs-uncached differential",
 		Rule:        "cases are rapid-generated sequential histories of LOOKUP/CREATE/MKDIR/SYMLINK/REMOVE/RMDIR/RENAME/READDIR(PLUS)/GETATTR/READLINK over names {a,b,c} to depth 3, addressed through every handle ever issued (stale ones included); each history runs under the all-off baseline and k cached configurations (quick 3, thorough 6 of 15); non-trivial = a read-type request on a name or directory affected by an earlier successful mutation, executed under a configuration with at least one cache on; distinct = FNV-64 of the case JSON",
 		Assumptions: append([]string{"documented latitude L1-L7 of DESIGN.md §5 C02 (REMOVE of empty dir, UNCHECKED/EXCLUSIVE on existing objects, error code identity not compared against the model, path-bound handles)"}, baseAssumptions...),
